@@ -1234,6 +1234,12 @@ sf_command	(SNDFILE *sndfile, int command, void *data, int datasize)
 
 				position = *((sf_count_t*) data) ;
 
+				/* A negative length would compare equal to the seek error value below. */
+				if (position < 0)
+				{	psf->error = SFE_BAD_SEEK ;
+					return SF_TRUE ;
+					} ;
+
 				if (sf_seek (sndfile, position, SEEK_SET) != position)
 					return SF_TRUE ;
 
